@@ -28,6 +28,8 @@ def add_reports(rng, ap):
             cols.append(rng.choice(cols))          # a column requested twice: a JSON record is a dict
         rep = {"id": f"rep{k}", "cols": cols, "leaf": rng.random() < 0.5, "fmt": rng.choice(FORMATS),
                "formats": rng.choice([["json"], ["csv"], ["json", "csv"]])}
+        if ap.get("scenario_lines") and rng.random() < 0.6:
+            rep["sc"] = 1                            # the report is about the second scenario
         reps.append(rep)
     tail = ""
     for r in reps:
@@ -36,6 +38,8 @@ def add_reports(rng, ap):
             tail += " leaftasksonly true"
         if r["fmt"]:
             tail += f' timeformat "{r["fmt"]}"'
+        if r.get("sc"):
+            tail += " scenarios s1"
         tail += " }\n"
     return ap, reps, tail
 
@@ -84,7 +88,8 @@ def expected_rows(ap, rep, res):
         rate[projects.fid(p)] = float(n.get("rate") or 0.0)
     for p, n in idx.items():
         t = projects.fid(p)
-        st = res["tasks"][t][0]
+        sc = rep.get("sc", 0)
+        st = res["tasks"][t][sc]
         row = {"_leaf": "kids" not in n}
         for c in rep["cols"]:
             if c == "id":
@@ -104,7 +109,7 @@ def expected_rows(ap, rep, res):
             elif c == "cost":
                 tot = 0.0
                 if "kids" not in n:
-                    for r, slots in res["ledger"].items():
+                    for r, slots in (res.get("ledgers") or [res["ledger"]])[sc].items():
                         for s, ents in slots.items():
                             for tt, x in ents:
                                 if tt == t:
@@ -124,6 +129,12 @@ def run(ctx):
         for _, n in projects.walk(ap["resources"]):
             if "kids" not in n and ctx.rng.random() < 0.7:
                 n["rate"] = ctx.rng.choice([10.0, 100.0, 37.5, 250.0])
+        if ctx.rng.random() < 0.3:
+            # a second scenario with efforts of its own: a report may be about it ('scenarios s1')
+            ap["scenario_lines"] = ['scenario plan "plan" { scenario s1 "s1" }']
+            for _, n in projects.walk(ap["tasks"]):
+                if "kids" not in n and n.get("effort") and ctx.rng.random() < 0.5:
+                    n.setdefault("sc_attrs", []).append(("s1", "effort", n["effort"] + ctx.rng.choice([60, 120, 240])))
         ap2, reps, tail = add_reports(ctx.rng, ap)
         cases.append({"text": projects.render(ap2, extra_tail=tail)})
         metas.append((ap2, reps))
@@ -193,7 +204,7 @@ def run(ctx):
         violations.append({"no_input": True, "replay": common.write_replay(ctx, {"property": "C18", "kind": "proof obligation no longer checks; no failing input found", "failing_obligations": failing})})
     cov = {"obligations": nob, "discharged": ndis, "checker_cmd": "tools/coqbuild.sh (coqc 8.16.1 full .vo build)", "trusted_base": common.TRUSTED, "files": files,
            "traces_validated_against_impl": stats["reports"], "input_distribution": dict(stats), "findings": len(bad),
-           "rule": "scheduled core / sub-slot / tree / ALAP projects with resource rates, 1-2 task reports each with a random column selection (id, name, start, end, cost, priority), leaf-only flag, report and project time formats, json / csv / both; API tables rendered twice, generated files re-read, task attributes and ledger compared before/after",
+           "rule": "scheduled core / sub-slot / tree / ALAP projects with resource rates, 1-2 task reports each with a random column selection (id, name, start, end, cost, priority), leaf-only flag, report and project time formats, reports about the second scenario of projects with scenario-specific efforts, json / csv / both; API tables rendered twice, generated files re-read, task attributes and ledger compared before/after",
            "samples": [{"text": cases[0]["text"][-600:], "csv": (res[0].get("reports") or [{}])[0].get("csv0")}]}
     common.finish(ctx, "proof", cov, violations,
                   ["partial: strftime, json and csv are oracles; cell texts are recomputed by the harness from the schedule and the ledger; which rows appear, their order, the header and the dict semantics of JSON records (duplicate titles keep the last binding) are computed by the extracted Model/Report.v"])
